@@ -82,6 +82,10 @@ CHECKS = {
    technique="bounded exhaustive enumeration of songs (signatures per bar, event placements, resolutions) exported with ToSMF0/ToSMF1 against a bar model and the strict parser",
    text="Songs of 1..3 bars: each of the 119 signatures (numerators 1..24 over 1,2,4,8,16,32 whose bar fits in 255 thirty-seconds, plus 'inherit') in bars 1 and 2, a 12-signature subset (thorough: all) in bar 3, resolutions {8,96,960,32760}; event placements over tracks {0,1,7} x positions {0,1,last 32nd} x durations {0,1,to end of bar,across the bar line,to end of song}, notes and non-notes, singly, in pairs and a subset of triples over six signature sequences. Bars start where the previous one ends, events sit at bar start + position, note-offs after their duration, a time-signature event where the signature changes, all tracks end at the end of the last bar, SMF0 and SMF1 hold the same (tick, message) multiset, both pass the strict parser.",
    note="Order of simultaneous events is not judged (multisets per tick)."),
+ "C17": dict(level="model_checking", engine="sched", design="4/C17",
+   technique="(a) explicit-state BFS of life-cycle histories on the in-memory driver to the fixpoint; (b) stateless DFS over all thread interleavings of the process-backed driver under a hand-written cooperative scheduler with happens-before state caching (driver sources mechanically rewritten onto the shim at check time); (c) Go race detector on free-running executions as a complement",
+   text="(a) every protocol-respecting history of open / listen (direct and through midi.ListenTo) / send (direct and through midi.SendTo) / stop / close on the in-memory driver: the search over 10 operations reaches its fixpoint; each call's result and every delivery is compared with the life-cycle model (exactly-once delivery to the active listener, dropped without failure otherwise, ErrPortClosed on a closed port, no call-back after stop, listening again works, open/close idempotent). (b) six scenario harnesses on midicatdrv (listen + two lines; stop racing with a line, listen again; helper cannot be started; idempotent open/close; out port with two concurrent senders; Driver.Close with an active listener): every interleaving of harness, reader goroutine, control goroutine and helper process (thorough: no preemption bound; quick: at most 2 preemptions), oracles: every call returns (no deadlock), at-most-once in-order delivery, no call-back after stop returned, lines written while listening are delivered, lines arrive intact at the helper. (c) the unmodified driver built with -race runs the protocol-respecting histories up to length 4/6 with two concurrent senders against a stand-in helper binary.",
+   note="Trusted: the scheduler and shim (litmus programs run on every check: lost update, channel order/deadlock, RWMutex writer preference, pipe drain/close, select choice), the rewriter (fails loudly, exit 3, on constructs it cannot translate). Happens-before caching assumes shared data is only touched under the shim's synchronisation; the race pass checks exactly that assumption but samples schedules (exhaustive:false for that part). Reading bytes already pending in the pipe is not a scheduling point."),
 }
 
 NOT_YET = "check not built yet in this session (see DESIGN.md section 4 for the planned exploration)"
